@@ -14,16 +14,19 @@
 (***************************************************************************)
 EXTENDS LoCall, TLC, Json
 
-CONSTANTS NSamp, EmitReplay, Ancs, Lowers
+CONSTANTS NSamp, EmitReplay, Ancs, Lowers, KK
 VARIABLES anc, site, alleles, revs, refRc, refLower, phase
 vars == <<anc, site, alleles, revs, refRc, refLower, phase>>
 
-K == 7
+\* k = 7 (two 36-base ancestors: conformance of LoCallRef) or k = 15 - where C17 covers the reference mode - with one
+\* 50-base ancestor whose 14-mers are unique on both strands
+K == KK
 AllAncestors == << <<71,67,84,65,65,65,71,65,67,65,65,84,84,65,67,65,84,65,65,67,65,84,65,67,65,67,71,84,67,65,71,67,65,67,71,65>>,
                    <<65,67,67,67,67,65,84,67,71,71,65,67,84,71,71,67,65,84,84,84,84,84,65,84,84,65,67,65,67,84,67,65,71,65,65,65>> >>
-Ancestors == {AllAncestors[i] : i \in Ancs}
+Ancestor15 == <<67,65,65,67,67,65,65,67,71,67,65,71,84,71,71,84,71,71,67,67,71,71,67,71,84,67,84,84,84,65,84,71,84,71,84,84,65,84,65,67,67,67,65,71,84,67,65,65,84,65>>   \* CAACCAACGCAGTGGTGGCCGGCGTCTTTATGTGTTATACCCAGTCAATA
+Ancestors == IF KK = 7 THEN {AllAncestors[i] : i \in Ancs} ELSE {Ancestor15}
 
-Init == /\ anc \in Ancestors /\ site \in K..(Len(AllAncestors[1]) - 1 - K)
+Init == /\ anc \in Ancestors /\ site \in K..((IF KK = 7 THEN Len(AllAncestors[1]) ELSE Len(Ancestor15)) - 1 - K)
         /\ revs \in [1..NSamp -> BOOLEAN] /\ refRc \in BOOLEAN /\ refLower \in Lowers
         /\ alleles = <<>> /\ phase = "site"
 Next == /\ phase = "site"
@@ -59,6 +62,7 @@ Positioned ==
              Assert(\A s \in 1..NSamp : call.pseudo[s] = [x \in 1..Len(anc) |-> IF x = TruePos + 1 THEN TrueCol[s] ELSE RefAt(x - 1)], "PseudoGenomes"))
       /\ (EmitReplay =>
             PrintT(<<"REPLAY", ToJson([kind |-> "loref", k |-> K, samples |-> [s \in 1..NSamp |-> SampleSeq(s)], ref |-> Reference,
-                                       pre |-> Pre, placed |-> Len(call.vcf), panic |-> call.panic,
+                                       pre |-> Pre, placed |-> Len(call.vcf), panic |-> call.panic, truepos |-> TruePos, truecol |-> TrueCol,
+                                       trueref |-> RefAt(TruePos),
                                        columns |-> call.columns, vcf |-> VcfJson(call.vcf), pseudo |-> call.pseudo])>>))
 =============================================================================
